@@ -11,10 +11,22 @@ CMP_BIN = {"Le": "le", "Lt": "lt", "Ge": "ge", "Gt": "gt", "Eq": "eq", "Ne": "ne
 NEG = {"le": "gt", "lt": "ge", "ge": "lt", "gt": "le", "eq": "ne", "ne": "eq"}
 
 
+def _cmp_name(name):
+    """operator of a (possibly workspace-resolved) PartialEq / PartialOrd method"""
+    if name in CMP_CALLS:
+        return CMP_CALLS[name]
+    last = name.rsplit("::", 1)[-1]
+    if last in ("eq", "ne") and " as std::cmp::PartialEq" in name:
+        return last
+    if last in ("lt", "le", "gt", "ge") and " as std::cmp::PartialOrd" in name:
+        return last
+    return None
+
+
 def cmp_term(t):
     """(op, a, b) if the boolean term t is a comparison"""
-    if t[0] == "call" and t[1] in CMP_CALLS and len(t[2]) == 2:
-        return CMP_CALLS[t[1]], t[2][0], t[2][1]
+    if t[0] == "call" and len(t[2]) == 2 and _cmp_name(t[1]):
+        return _cmp_name(t[1]), t[2][0], t[2][1]
     if t[0] == "bin" and t[1] in CMP_BIN:
         return CMP_BIN[t[1]], t[2], t[3]
     if t[0] == "un" and t[1] == "Not":
